@@ -320,7 +320,7 @@ class Evaluator(object):
         if isinstance(st, ast.Assert):
             c = self.ev(st.test, env)
             self.site("assert", st, cond=c)
-            self.pc = self.pc + (("if", c, True),)
+            self.pc = self.pc + (("if", c, True, "raise"),)
             return env
         if isinstance(st, ast.FunctionDef):
             q = "%s.%s" % (self.func.qual, st.name)
@@ -358,23 +358,44 @@ class Evaluator(object):
             return env
         raise AnalysisError("SYMEVAL", "unsupported statement %s at %s" % (type(st).__name__, self.func.loc(st)))
 
+    def _exit_kind(self, start):
+        kinds = set()
+        for x in self.summary.sites[start:]:
+            if x.kind in ("raise", "return"):
+                kinds.add(x.kind)
+        if kinds == {"raise"}:
+            return "raise"
+        if kinds == {"return"}:
+            return "return"
+        return "mixed"
+
     def if_stmt(self, st, env):
         c = self.ev(st.test, env)
         saved = self.pc
-        self.pc = saved + (("if", c, True),)
+        self.pc = saved + (("if", c, True, None),)
+        n0 = len(self.summary.sites)
         et = self.run_keep_pc(st.body, dict(env))
-        self.pc = saved + (("if", c, False),)
+        pct = self.pc
+        kt = self._exit_kind(n0) if et is None else None
+        self.pc = saved + (("if", c, False, None),)
+        n1 = len(self.summary.sites)
         ef = self.run_keep_pc(st.orelse, dict(env))
+        pcf = self.pc
+        kf = self._exit_kind(n1) if ef is None else None
         self.pc = saved
         if et is None and ef is None:
             return None
         if et is None:
-            # rest of the enclosing block runs under not c
-            self.pc = saved + (("if", c, False),)
+            # rest of the enclosing block runs under not c (plus whatever the else branch established)
+            self.pc = saved + (("if", c, False, kt),) + pcf[len(saved) + 1 :]
             return ef
         if ef is None:
-            self.pc = saved + (("if", c, True),)
+            self.pc = saved + (("if", c, True, kf),) + pct[len(saved) + 1 :]
             return et
+        ea = pct[len(saved) + 1 :]
+        eb = pcf[len(saved) + 1 :]
+        if ea or eb:
+            self.pc = saved + (("either", c, ea, eb),)
         return self.merge(c, et, ef)
 
     def merge(self, c, et, ef):
@@ -786,7 +807,7 @@ class Evaluator(object):
         for v in node.values:
             t = self.ev(v, env)
             items.append(t)
-            self.pc = self.pc + (("if", t, op == "and"),)
+            self.pc = self.pc + (("if", t, op == "and", None),)
         self.pc = saved
         return tm.boolop(op, items)
 
@@ -807,9 +828,9 @@ class Evaluator(object):
     def ev_IfExp(self, node, env):
         c = self.ev(node.test, env)
         saved = self.pc
-        self.pc = saved + (("if", c, True),)
+        self.pc = saved + (("if", c, True, None),)
         a = self.ev(node.body, env)
-        self.pc = saved + (("if", c, False),)
+        self.pc = saved + (("if", c, False, None),)
         b = self.ev(node.orelse, env)
         self.pc = saved
         return tm.ite(c, a, b)
@@ -879,7 +900,7 @@ class Evaluator(object):
             for c in g.ifs:
                 ct = self.ev(c, inner)
                 conds.append(ct)
-                self.pc = self.pc + (("if", ct, True),)
+                self.pc = self.pc + (("if", ct, True, None),)
         vals = tuple(self.ev(e, inner) for e in elts)
         self.pc = saved
         return tm.mk("comp", kind, vals[0] if len(vals) == 1 else tm.tup(vals), tuple(iters), tuple(conds), cid)
@@ -993,6 +1014,16 @@ def _maybe_undef(t, depth=0):
 def pc_conds(pc):
     """[(cond_term, polarity)] of the 'if' items of a path condition."""
     return [(c[1], c[2]) for c in pc if c[0] == "if"]
+
+
+def pc_conds_full(pc):
+    """[(cond_term, polarity, origin)]; origin 'raise'/'return'/'mixed' when the condition
+    holds because the opposite branch left the function, None for an enclosing branch."""
+    return [(c[1], c[2], c[3]) for c in pc if c[0] == "if"]
+
+
+def pc_either(pc):
+    return [c for c in pc if c[0] == "either"]
 
 
 def pc_loops(pc):
